@@ -5,6 +5,7 @@ import Rdpgw.Oracle.Ntlm
 import Rdpgw.Oracle.Kdc
 import Rdpgw.Oracle.Download
 import Rdpgw.Oracle.Multi
+import Rdpgw.Oracle.Life
 
 /-!
 # rdpgw_oracle — line-protocol driver for the executable models
@@ -52,6 +53,7 @@ def dispatch (line : String) : String :=
     | "usertoken" => cmdUserToken m
     | "tokeninfo" => cmdTokenInfo m
     | "multi" => cmdMulti m
+    | "lifecycle" => cmdLifecycle m
     | _ => "bad-op"
 
 partial def loop (h : IO.FS.Stream) (out : IO.FS.Stream) : IO Unit := do
